@@ -3,4 +3,6 @@ Require Import Extraction ExtrOcamlBasic.
 Extraction Blacklist List String Int.
 Extraction "../ocaml/extracted/c20_table.ml"
   smap_run smap_get_default uset_run stylemap_run tagmap_run layout
-  hash_str hash_u64 cap count slots Z.of_N.
+  hash_str hash_u64 cap count slots
+  smap_run_spec uset_run_spec stylemap_run_spec tagmap_run_spec
+  Z.of_N. (* Z.of_N only so that the extracted module has the type z that ocaml/conv.ml mentions *)
